@@ -68,7 +68,7 @@ Theorem C11_edit_bounded : forall (args : list ins_arg) (a : ins_arg) (e : elem)
   forallb wf_arg args = true -> wf_arg a = true ->
   d_insert args <= 6 /\ d_append a <= 7 /\ d_extend args <= 8 /\ d_insert_beside args <= 7 /\
   d_replace_with args <= 7 /\ d_wrap = 5 /\ d_unwrap e <= 6 /\ d_clear e decompose <= 4 /\
-  d_set_string e <= 6 /\ d_smooth e <= 6 /\ d_extract = 2 /\ d_decompose = 3 /\ d_new_string = 3.
+  d_set_string e <= 6 /\ d_smooth e <= 6 /\ d_extract = 2 /\ d_decompose e = 3 /\ d_new_string = 3.
 Proof. exact edit_bounded_thm. Qed.
 Print Assumptions C11_edit_bounded.
 Example C11_edit_args_satisfiable : forallb wf_arg [IStr; IFresh; IAttached false; ISoup [IFresh; IStr]] = true.
